@@ -178,6 +178,13 @@ impl ReorderBuffer {
     }
 }
 
+#[cfg(uflow_verif)]
+impl ReorderBuffer {
+    pub fn verif_dump(&self) -> String {
+        format!("rb={}:{}:{}:{}", self.base_id, self.frame_count, self.frames[0], self.frames[1])
+    }
+}
+
 #[cfg(test)]
 mod tests {
     use super::*;
